@@ -309,3 +309,59 @@ Example pulsar_instance_example :
   p_unpack demo_sch demo_name (dyn_ref demo_sch) demo_types demo_files (Some a) None (Some []) = Ok (true, (1%nat, norm demo_sch 1 (snd demo_value))) /\
   p_unpack demo_sch demo_name (dyn_pulsar demo_sch) demo_types demo_files (Some {| type_url := [x2f; x70; x2e; x42]; value := [xff] |}) None None = Err.
 Proof. vm_compute. repeat split. Qed.
+
+(* ---- Translator tie (Model/AnyProg.v, task T13) ------------------------------------------------------------------------
+   /repo/anyutil/any.go is re-translated on every run of this check (engine "anyprog": go/parser, purely syntactic) into the
+   statement language of Model/AnyProg.v and compared with the canonical programs [canon_New], [canon_MarshalFrom],
+   [canon_Unpack] (the current source transcribed once). The theorems below say that the canonical programs ARE the
+   hand-written model the theorems above are about: for every codec (marshal / unmarshal are parameters), every pair of
+   global registries, every destination Any / source / options / Any / resolver setting (nil included) and every call-depth
+   budget that lets New reach MarshalFrom, interpreting the canonical program gives AnyUtil.v's function — the same
+   outcome (Ok / Err / Panic / OutOfFuel), the same returned value, the same Any after the call; the interpreter is never stuck. *)
+From CP Require Import GoFun AnyProg AnyProgProofs.
+
+Theorem marshal_from_prog_correct : AnyProg.marshal_from_prog_stmt.
+Proof. exact AnyProgProofs.marshal_from_prog_correct. Qed.
+
+Theorem new_prog_correct : AnyProg.new_prog_stmt.
+Proof. exact AnyProgProofs.new_prog_correct. Qed.
+
+(* outcome, returned message with the implementation it has, and the argument Any afterwards (never modified) *)
+Theorem unpack_prog_correct : AnyProg.unpack_prog_stmt.
+Proof. exact AnyProgProofs.unpack_prog_correct. Qed.
+
+(* Unpack as written before /repo commit d0c621d is what [unpack_gen false] (theorem before_fix_panics) models *)
+Theorem unpack_before_fix_prog_correct : AnyProg.unpack_before_fix_prog_stmt.
+Proof. exact AnyProgProofs.unpack_before_fix_prog_correct. Qed.
+
+(* a run of the translated MarshalFrom that does not return nil leaves the destination Any as it was *)
+Theorem marshal_from_prog_fail_untouched : forall (msg desc opts : Type) (dname : desc -> str) (descr_of : msg -> desc)
+    (marshal : opts -> msg -> outcome (list byte)) (unmarshal : bool -> desc -> list byte -> outcome msg) (default_opts : opts)
+    (gt gf : registry desc) (d : nat) (dst : option any) (src : option msg) (o : opts) (r : outcome unit) (dst' : option any),
+  ap_marshal_from msg desc opts dname descr_of marshal unmarshal default_opts gt gf canon_anyprog (S d) dst src o = Some (r, dst') ->
+  r <> Ok tt -> dst' = dst.
+Proof. exact AnyProgProofs.marshal_from_prog_fail_untouched. Qed.
+
+(* the comparison the driver makes between the translated and the canonical function is sound: accepted = identical *)
+Theorem apfun_eqb_sound : AnyProg.apfun_eqb_sound_stmt.
+Proof. exact AnyProgProofs.apfun_eqb_sound. Qed.
+
+(* non-vacuity: the canonical programs run on the demo codec — New packs, Unpack returns the registry's type, the dynamic type
+   with an empty type registry, an error when no registry knows the name, an error for a service name (the D10 repair) and for
+   the nil Any; MarshalFrom into a nil destination panics after a successful marshal and refuses a nil source *)
+Example anyprog_example :
+  let a := {| type_url := [x2f; x70; x2e; x42]; value := [x3a; x05; x08; x05; x12; x01; x61] |} in
+  let run_new := ap_new demo_msg nat bool demo_name fst demo_marshal demo_unmarshal true demo_types demo_files canon_anyprog 2 in
+  let run_unpack := ap_unpack demo_msg nat bool demo_name fst demo_marshal demo_unmarshal true demo_types demo_files canon_anyprog 1 in
+  let run_from := ap_marshal_from demo_msg nat bool demo_name fst demo_marshal demo_unmarshal true demo_types demo_files canon_anyprog 1 in
+  run_new (Some demo_value) = Some (Ok a) /\
+  run_new None = Some Err /\
+  run_unpack (Some a) None None = Some (Ok (false, demo_value)) /\
+  run_unpack (Some a) None (Some []) = Some (Ok (true, demo_value)) /\
+  run_unpack (Some a) (Some []) (Some []) = Some Err /\
+  run_unpack (Some {| type_url := [x2f; x70; x2e; x53]; value := [] |}) None None = Some Err /\
+  run_unpack None None None = Some Err /\
+  run_from None (Some demo_value) true = Some (Panic, None) /\
+  run_from (Some a) None true = Some (Err, Some a) /\
+  apfun_eqb canon_Unpack canon_Unpack = true /\ apfun_eqb canon_Unpack canon_MarshalFrom = false.
+Proof. vm_compute. repeat split. Qed.
